@@ -1,7 +1,7 @@
 (* Property C10 — request strings can never change the structure of SQL sent to ClickHouse.
    Only statements; proofs by reference. *)
 From Coq Require Import List String Ascii Bool ZArith.
-From Qryn Require Import model.Quote model.ChLex model.Like model.SqlSites gen.GenSqlSites.
+From Qryn Require Import model.Quote model.ChLex model.Like model.SqlSites gen.GenC10Sites.
 From Qryn Require Import proofs.QuoteProofs proofs.ChLexProofs proofs.LikeProofs proofs.SqlSitesProofs.
 Import ListNotations.
 Open Scope string_scope.
